@@ -500,11 +500,12 @@ Inductive pwhich := Total | Correlations.
 
 (* numeric.infidelity since commit 2891db3: for every basis the fidelity filter function AND the control matrix
    are requested (the identity component of the noise operators is subtracted); for the pulse correlations the
-   pulse-correlation control matrix is used when it is cached *)
+   pulse-correlation control matrix is requested when it is cached or (commit a9e668a) when the selected noise
+   operators are not traceless -- then CalculationError if it is gone; [traceless] is a fact about the pulse *)
 Definition integrate2 (g : grid) (f c : tag) : M (tag * how) :=
   may_raise L_integrand ;;; v <- lift (derive g [f; c]) ;; may_raise L_integrate ;;; ret (v, Computed).
 
-Definition infidelity (g : grid) (pw : pwhich) (ci : bool) : M (tag * how) :=
+Definition infidelity (g : grid) (pw : pwhich) (traceless : bool) (ci : bool) : M (tag * how) :=
   match pw with
   | Total =>
       r <- get_ff g Fidelity First ci ;;
@@ -515,7 +516,7 @@ Definition infidelity (g : grid) (pw : pwhich) (ci : bool) : M (tag * how) :=
       if c && negb e then raise E_value
       else r <- get_pcff Fidelity ;;
            c2 <- is_cached S_control_matrix_pc ;;
-           if c2 then r2 <- get_pccm ;; integrate2 g (fst r) (fst r2)
+           if c2 || negb traceless then r2 <- get_pccm ;; integrate2 g (fst r) (fst r2)
            else integrate g (fst r)
   end.
 
@@ -650,7 +651,7 @@ Inductive op :=
 | TplProp | TProp | TauProp
 | Cleanup (m : cleanup_method)
 | BadParams                     (* any call rejected before its first effect (ValueError) *)
-| Infidelity (g : grid) (pw : pwhich) (ci : bool)
+| Infidelity (g : grid) (pw : pwhich) (traceless ci : bool)
 | DecayAmplitudes (g : grid) (pw : pwhich) (ci : bool)
 | Cumulant (g : grid) (pw : pwhich) (second : bool) (cio : option bool)
 | ErrorTransferMatrix (g : grid) (second ci : bool)
@@ -704,7 +705,7 @@ Definition run_op (o : op) : M (option (tag * how)) :=
   | TauProp => noret tau_prop
   | Cleanup m => noret (cleanup_user m)
   | BadParams => raise E_value
-  | Infidelity g pw ci => withret (infidelity g pw ci)
+  | Infidelity g pw tl ci => withret (infidelity g pw tl ci)
   | DecayAmplitudes g pw ci => withret (decay_amplitudes g pw ci)
   | Cumulant g pw s cio => withret (cumulant g pw s cio)
   | ErrorTransferMatrix g s ci => withret (error_transfer_matrix g s ci)
